@@ -24,8 +24,12 @@ ASSUMPTIONS = ['statsmodels GLM solves the score equations of the saturated samp
 TOL = dict(rtol=1e-6, atol=1e-8)
 
 
-def combined(rng, junk):
-    df, covs = gen.cat_dataset(rng, outcome='binary', ncov=int(rng.integers(1, 3)), max_strata=8)
+def combined(rng, junk, outcome='binary', sign=1):
+    """outcome: 'binary' | 'normal' | 'count' (gen.cat_dataset: normal values around 1.5 .. 8.5 with sd 2, counts with
+    mean 1.6 .. 4.4 -- stratum means outside [0, 1]); sign = -1 mirrors a normal outcome (all stratum means negative)"""
+    df, covs = gen.cat_dataset(rng, outcome=outcome, ncov=int(rng.integers(1, 3)), max_strata=8)
+    if sign != 1:
+        df['Y'] = sign * df['Y']
     df['S'] = 1
     strata = df[covs].drop_duplicates().values.tolist()
     rows = []
@@ -35,7 +39,10 @@ def combined(rng, junk):
     tgt = pd.DataFrame(rows, columns=covs)
     # junk = False: A, Y missing outside the sample;  True: junk Y;  'AY': treatment AND outcome recorded (junk) there
     tgt['A'] = rng.integers(0, 2, size=len(tgt)).astype(float) if junk == 'AY' else np.nan
-    tgt['Y'] = rng.integers(0, 2, size=len(tgt)).astype(float) if junk else np.nan
+    if outcome == 'binary':
+        tgt['Y'] = rng.integers(0, 2, size=len(tgt)).astype(float) if junk else np.nan
+    else:
+        tgt['Y'] = np.round(rng.normal(40.0, 25.0, size=len(tgt)), 2) if junk else np.nan
     tgt['S'] = 0
     out = pd.concat([df, tgt], ignore_index=True)
     out = out.iloc[rng.permutation(len(out))].reset_index(drop=True)
@@ -66,7 +73,7 @@ def closed_form(df, covs):
             num, den = Fraction(0), Fraction(0)
             for s in S:
                 cell = (sid == s) & smp & (df['A'].values == a)
-                cm = Fraction(int(df['Y'].values[cell].sum()), int(cell.sum()))
+                cm = sum(Fraction(float(v)) for v in df['Y'].values[cell]) / int(cell.sum())
                 nt = int(((sid == s) & (True if g else ~smp)).sum()) if g else int(((sid == s) & ~smp).sum())
                 num += nt * cm
                 den += nt
@@ -102,9 +109,45 @@ def enc(df, covs, fl=True):
                 obs=enc_list(df['S'].astype(int).tolist(), str))
 
 
-def estimators(df, covs, g, stab, treat, which, grepr=bool, extra=()):
+SUMMARY_DECIMALS = [0, 1, 2, 3, 4, 6]
+OUTCOME_TYPE = {'binary': 'binary', 'normal': 'normal', 'count': 'poisson'}      # gen.cat_dataset kind -> zEpid option
+
+
+def draw_after(rng):
+    """reporting calls made between fit() and reading risk_difference / risk_ratio (round 4): every class here has one
+    reporting method, summary(decimal=4); drawn in 2 of 3 cases, with the number of decimals drawn too"""
+    u = rng.uniform()
+    if u < 1 / 3:
+        return None
+    return [['summary', {} if u < 0.45 else {'decimal': int(rng.choice(SUMMARY_DECIMALS))}]]
+
+
+def apply_after(e, after):
+    import contextlib
+    import io
+    for meth, kwargs in (after or []):
+        with contextlib.redirect_stdout(io.StringIO()):
+            getattr(e, meth)(**kwargs)
+
+
+def after_d(chk, e, which, after, case):
+    """D: the results read after the reporting calls are exactly the ones fit() stored (a report computes nothing on
+    them); the closed-form predicates that follow judge the values read AFTER the calls"""
+    if not after:
+        return
+    at_fit = (float(e.risk_difference), float(e.risk_ratio))
+    apply_after(e, after)
+    now = (float(e.risk_difference), float(e.risk_ratio))
+    chk.count('after:' + '+'.join('%s(%s)' % (m, ','.join('%s=%s' % kv for kv in sorted(k.items()))) for m, k in after))
+    chk.d(now == at_fit, '%s: risk_difference / risk_ratio read after %s = the values fit() stored (exact)'
+          % (which, ', '.join(m + '()' for m, _ in after)), dict(case, at_fit=at_fit, after_reporting=now))
+
+
+def estimators(df, covs, g, stab, treat, which, grepr=bool, extra=(), ytype='binary'):
     """grepr: how the boolean option `generalize` is handed over (bool / numpy.bool_ / int: all legitimate truth values);
-    extra: further columns of the caller's frame that no model uses (they may hold missing values)"""
+    extra: further columns of the caller's frame that no model uses (they may hold missing values);
+    ytype: the documented outcome_type option of GTransportFormula / AIPSW.outcome_model (IPSW has none: it averages
+    whatever the outcome column holds)"""
     from zepid.causal.generalize import IPSW, GTransportFormula, AIPSW
     cols = covs + ['A', 'Y', 'S'] + list(extra)
     sc = gen.sat_cov(covs)
@@ -122,9 +165,15 @@ def estimators(df, covs, g, stab, treat, which, grepr=bool, extra=()):
         d2 = df[cols].copy()
         smp = d2['S'] == 1
         sid = pd.Series(gen.strata_ids(d2, covs), index=d2.index)
-        p = d2.loc[smp, 'A'].groupby(sid[smp]).transform('mean')
+        # inverse probability of the arm a row is in, among the sampled rows of its stratum: n_s / n_{a,s} (= 1/p and
+        # 1/(1-p) when every sampled row is in arm 1 or arm 0); rows in neither arm (a third arm, an unrecorded
+        # exposure) keep weight 1 -- they are in neither of the two risks compared
+        ns = smp.astype(int).groupby(sid).transform('sum')
         d2['tw'] = 1.0
-        d2.loc[smp, 'tw'] = np.where(d2.loc[smp, 'A'] == 1, 1 / p, 1 / (1 - p))
+        for arm in (0, 1):
+            m = smp & (d2['A'] == arm)
+            na = m.astype(int).groupby(sid).transform('sum')
+            d2.loc[m, 'tw'] = (ns[m] / na[m]).astype(float)
         e = IPSW(d2, exposure='A', outcome='Y', selection='S', generalize=g, weights='tw')
         e.sampling_model(sc, stabilized=stab, print_results=False)
         e.fit()
@@ -134,7 +183,11 @@ def estimators(df, covs, g, stab, treat, which, grepr=bool, extra=()):
         e.treatment_model(sc, stabilized=stab, print_results=False)
         e.fit()
     elif which == 'GTransportFormula':
-        e = GTransportFormula(frame[cols], exposure='A', outcome='Y', selection='S', generalize=g)
+        if ytype == 'binary':
+            e = GTransportFormula(frame[cols], exposure='A', outcome='Y', selection='S', generalize=g)
+        else:
+            e = GTransportFormula(frame[cols], exposure='A', outcome='Y', selection='S', generalize=g,
+                                  outcome_type=OUTCOME_TYPE[ytype])
         e.outcome_model(gen.sat_out(covs), print_results=False)
         e.fit()
     else:
@@ -142,7 +195,10 @@ def estimators(df, covs, g, stab, treat, which, grepr=bool, extra=()):
         e.sampling_model(sc, stabilized=stab, print_results=False)
         if treat:
             e.treatment_model(sc, stabilized=stab, print_results=False)
-        e.outcome_model(gen.sat_out(covs), print_results=False)
+        if ytype == 'binary':
+            e.outcome_model(gen.sat_out(covs), print_results=False)
+        else:
+            e.outcome_model(gen.sat_out(covs), outcome_type=OUTCOME_TYPE[ytype], print_results=False)
         e.fit()
     return e
 
@@ -241,9 +297,93 @@ def gtransfit_k(chk, drv, e, df, covs, g, wcol, case):
           dict(case, model=rep, impl_nobs=float(e._outcome_model.nobs)))
 
 
+def other_arms(dfn, covs, seed, third_arm):
+    """the combined data set plus SAMPLED rows whose exposure is neither 0 nor 1 (round 4): 0-3 rows per stratum with an
+    unrecorded exposure (NaN) and a recorded outcome (mostly 1: unlike either arm), and -- `third_arm` -- 1-5 rows per
+    stratum in a third trial arm A = 2 (risk 0.85).  The estimators compare exposure == 1 with exposure == 0: those rows
+    belong to neither risk; they do count as members of the sample (sampling model) and of the population."""
+    r = np.random.default_rng(seed + 13)
+    rows = []
+    for st in dfn[covs].drop_duplicates().values.tolist():
+        for _ in range(int(r.integers(0, 4))):
+            rows.append(list(st) + [np.nan, float(r.uniform() < 0.9), 1])
+        if third_arm:
+            for _ in range(int(r.integers(1, 6))):
+                rows.append(list(st) + [2.0, float(r.uniform() < 0.85), 1])
+    if not any(np.isnan(x[-3]) for x in rows):
+        rows.append(dfn[covs].iloc[0].tolist() + [np.nan, 1.0, 1])
+    out = pd.concat([dfn[covs + ['A', 'Y', 'S']], pd.DataFrame(rows, columns=covs + ['A', 'Y', 'S'])], ignore_index=True)
+    for c in covs + ['S']:
+        out[c] = out[c].astype(int)
+    return out.iloc[r.permutation(len(out))].reset_index(drop=True)
+
+
+def judge_cell(chk, drv, e, df, covs, cf, which, g, after, case, what):
+    after_d(chk, e, which, after, case)
+    want = [float(cf[(g, 1)] - cf[(g, 0)]), float(cf[(g, 1)] / cf[(g, 0)])]
+    case['impl'] = [float(e.risk_difference), float(e.risk_ratio)]
+    case['want'] = want
+    chk.d(close(e.risk_difference, want[0], **TOL) and close(e.risk_ratio, want[1], **TOL),
+          '%s RD/RR = sample cell means of exposure 1 and exposure 0 standardized to the %s (%s)'
+          % (which, 'whole population' if g else 'non-sampled rows', what), case)
+    if which == 'GTransportFormula':
+        gtransfit_k(chk, drv, e, df, covs, g, None, case)
+
+
+def arms_cell(chk, drv, seed, index_kind, which, g, stab, treat, after):
+    """sampled rows in neither arm.  IPSW is run with a user-supplied treatment-weight column (inverse probability of
+    the row's arm among the sampled rows of its stratum) on data with a third arm AND unrecorded exposures;
+    GTransportFormula / AIPSW (documented: binary exposures only) on data with unrecorded exposures."""
+    _, dfn, _, covs = make_frames(seed, index_kind)
+    dfx = other_arms(dfn, covs, seed, third_arm=(which == 'IPSW'))
+    cf = closed_form(dfx, covs)
+    case = {'estimator': which, 'generalize': g, 'stabilized': stab, 'treatment_model': treat, 'after': after,
+            'data': gen.describe(dfx, covs, data_seed=seed, index=index_kind,
+                                 sampled_rows_exposure_missing=int((dfx['A'].isna() & (dfx['S'] == 1)).sum()),
+                                 sampled_rows_third_arm=int((dfx['A'] == 2).sum())),
+            'cell': {'fn': 'arms_cell', 'args': dict(seed=seed, index_kind=index_kind, which=which, g=g, stab=stab,
+                                                     treat=treat, after=after)}}
+    chk.case(case, (hash(dfx.to_csv()), 'arms', which, g, stab, treat))
+    chk.count('other_arms/%s/%s' % (which, 'generalize' if g else 'transport'))
+    try:
+        e = estimators(dfx, covs, g, stab, treat, which)
+    except Exception as ex:      # noqa: BLE001
+        chk.d(False, '%s runs on a sample with rows in neither arm' % which, dict(case, impl_error=repr(ex)))
+        return
+    judge_cell(chk, drv, e, dfx, covs, cf, which, g, after, case,
+               'sampled rows with an unrecorded exposure%s belong to neither arm' % (' / in a third arm' if which == 'IPSW' else ''))
+
+
+def ytype_cell(chk, drv, seed, index_kind, kind, sign, which, g, stab, treat, after):
+    """a non-binary outcome (documented: outcome_type 'normal' / 'poisson' of GTransportFormula and AIPSW.outcome_model;
+    IPSW averages any numeric outcome): the standardized stratum-specific MEAN outcomes, which is what the classes
+    report as `risk_difference` / `risk_ratio` for these types; junk outcome values recorded outside the sample"""
+    dfy, covs = combined(np.random.default_rng(seed + 17), junk=True, outcome=kind, sign=sign)
+    if index_kind == 'shifted':
+        dfy.index = np.arange(len(dfy)) + 700
+    elif index_kind == 'shuffled':
+        dfy.index = np.random.default_rng(seed + 1).permutation(len(dfy))
+    cf = closed_form(dfy, covs)
+    case = {'estimator': which, 'generalize': g, 'stabilized': stab, 'treatment_model': treat, 'after': after,
+            'outcome': kind, 'sign': sign,
+            'data': gen.describe(dfy, covs, data_seed=seed, index=index_kind,
+                                 sample_outcome_range=[float(dfy.loc[dfy.S == 1, 'Y'].min()),
+                                                       float(dfy.loc[dfy.S == 1, 'Y'].max())]),
+            'cell': {'fn': 'ytype_cell', 'args': dict(seed=seed, index_kind=index_kind, kind=kind, sign=sign, which=which,
+                                                      g=g, stab=stab, treat=treat, after=after)}}
+    chk.case(case, (hash(dfy.to_csv()), 'ytype', which, g, stab, treat))
+    chk.count('outcome_%s/%s/%s' % (kind, which, 'generalize' if g else 'transport'))
+    try:
+        e = estimators(dfy, covs, g, stab, treat, which, ytype=kind)
+    except Exception as ex:      # noqa: BLE001
+        chk.d(False, '%s runs with a %s outcome' % (which, kind), dict(case, impl_error=repr(ex)))
+        return
+    judge_cell(chk, drv, e, dfy, covs, cf, which, g, after, case, '%s outcome' % kind)
+
+
 def run(chk, drv, rng, tier):
     nds = 20 if tier == 'quick' else 60
-    for _ in range(nds):
+    for di in range(nds):
         seed = int(rng.integers(0, 2 ** 31))
         index_kind = ['default', 'shifted', 'shuffled'][int(rng.integers(0, 3))]
         dfj, dfn, dfa, covs = make_frames(seed, index_kind)
@@ -300,6 +440,10 @@ def run(chk, drv, rng, tier):
                               close(e.risk_ratio, first[1], rtol=1e-12, atol=1e-14),
                               '%s: a second fit() on the same object reproduces the first' % which,
                               dict(case, first=first, second=[float(e.risk_difference), float(e.risk_ratio)]))
+                        # reporting calls between fit() and reading the results (drawn): what follows judges the values
+                        # read after them
+                        case['after'] = draw_after(rng)
+                        after_d(chk, e, which, case['after'], case)
                         ej = estimators(dfj, covs, g, stab, treat, which)
                         want_rd = float(cf[(g, 1)] - cf[(g, 0)])
                         want_rr = float(cf[(g, 1)] / cf[(g, 0)])
@@ -361,6 +505,20 @@ def run(chk, drv, rng, tier):
                 gtransfit_k(chk, drv, ew, dfw, covs, g, 'fw', case)
             except Exception as ex:      # noqa: BLE001
                 chk.d(False, 'GTransportFormula runs with a frequency-weight column', dict(case, impl_error=repr(ex)))
+        # ---- round 4: sampled rows in neither arm (third arm / unrecorded exposure), and non-binary outcome types
+        for g in (True, False):
+            for stab in (True, False):
+                arms_cell(chk, drv, seed, index_kind, 'IPSW', g, stab, 'column', draw_after(rng))
+            arms_cell(chk, drv, seed, index_kind, 'GTransportFormula', g, None, None, draw_after(rng))
+            arms_cell(chk, drv, seed, index_kind, 'AIPSW', g, bool(rng.integers(0, 2)), bool(rng.integers(0, 2)),
+                      draw_after(rng))
+        kind = ['normal', 'count'][di % 2]
+        sign = -1 if (kind == 'normal' and di % 4 == 2) else 1
+        for g in (True, False):
+            ytype_cell(chk, drv, seed, index_kind, kind, sign, 'GTransportFormula', g, None, None, draw_after(rng))
+            ytype_cell(chk, drv, seed, index_kind, kind, sign, 'AIPSW', g, bool(rng.integers(0, 2)),
+                       bool(rng.integers(0, 2)), draw_after(rng))
+            ytype_cell(chk, drv, seed, index_kind, kind, sign, 'IPSW', g, bool(rng.integers(0, 2)), True, draw_after(rng))
 
 
 def replay(rec):
@@ -368,6 +526,20 @@ def replay(rec):
     n = 0
     for f in rec.get('failures', []):
         c = f['case']
+        if isinstance(c.get('cell'), dict):      # round-4 cells: re-run the stored cell through the same function
+            chk = common.Check('C16', 'replay', 0)
+            with common.quiet():
+                globals()[c['cell']['fn']](chk, None, **c['cell']['args'])
+            key = repr(c['cell'])
+            print(c['cell']['fn'], c['cell']['args'])
+            for gf in chk.d_fail:
+                gc = gf['case'] if isinstance(gf['case'], dict) else {}
+                print('   FAILS:', gf['what'], '| impl', gc.get('impl', gc.get('after_reporting')), '| want',
+                      gc.get('want', gc.get('at_fit')), gc.get('impl_error', ''))
+            if not chk.d_fail:
+                print('   all predicates hold now')
+            n += bool(chk.d_fail)
+            continue
         seed = c['data']['data_seed']
         dfj, dfn, _, covs = make_frames(seed, c['data'].get('index', 'default'))
         cf = closed_form(dfn, covs)
@@ -401,13 +573,18 @@ def replay(rec):
         with common.quiet():
             grepr = {'bool': bool, 'bool_': np.bool_, 'int': int}.get(c.get('generalize_passed_as', 'bool'), bool)
             e = estimators(dfn, covs, c['generalize'], c['stabilized'], c['treatment_model'], c['estimator'], grepr)
+            at_fit = (float(e.risk_difference), float(e.risk_ratio))
+            apply_after(e, c.get('after'))      # the reporting calls of the stored case, then the results are read
             ej = estimators(dfj, covs, c['generalize'], c['stabilized'], c['treatment_model'], c['estimator'])
         g = c['generalize']
         print(f['what'], '| impl RD/RR', float(e.risk_difference), float(e.risk_ratio), '| junk-Y variant',
               float(ej.risk_difference), float(ej.risk_ratio), '| closed form', float(cf[(g, 1)] - cf[(g, 0)]),
               float(cf[(g, 1)] / cf[(g, 0)]))
+        if c.get('after'):
+            print('   reporting calls', c['after'], '| RD/RR stored by fit()', at_fit)
         bad = not (close(e.risk_difference, float(cf[(g, 1)] - cf[(g, 0)]), **TOL) and
-                   close(ej.risk_difference, e.risk_difference, rtol=1e-12, atol=1e-14))
+                   close(ej.risk_difference, e.risk_difference, rtol=1e-12, atol=1e-14) and
+                   (float(e.risk_difference), float(e.risk_ratio)) == at_fit)
         n += bad
     print('failures reproduced:', n)
     return 1 if n else 0
